@@ -11,9 +11,10 @@ PID = "C17"
 LEAN_MODS = ["SwcVerif.Props.C17"]
 THEOREMS = ["C17.init_inv", "C17.greedy_step", "C17.step_inv", "C17.spanning", "C17.branching_limit", "C17.prim_step", "C17.prim_minimal", "C17.prim_attains"]
 TRUSTED = ["hand-written model Model/Mst.lean of the greedy loop (tied by the c17.mst correspondence: the parent array compared exactly; the model is fed "
-           "the float64 distance matrix the code computes, as exact rationals)"]
+           "the distance matrix the code computes in the dtype of the cloud (float64 or float32), as exact rationals)"]
 ASSUMPTIONS = ["prim_minimal assumes a symmetric, non-negative matrix: |p_i - p_j| computed by np.linalg.norm is both (IEEE negation is exact)",
-               "np.linalg.norm / float64 rounding of the distance matrix and of `dis + bf*acc` (clouds whose best and second-best cost are closer than 1e-9 are rejected)",
+               "rounding of the distance matrix in the dtype of the input cloud (float64 or float32) and of `dis + bf*acc`: clouds whose best and second-best cost are "
+               "relatively closer than max(1e-9, 64 eps(dtype)) are rejected; the MST weight is compared relatively, max(1e-7, 64 eps(dtype)), at every length scale",
                "numpy masked-array argmin = first minimum in row-major order over the unmasked cells"]
 
 
@@ -26,9 +27,30 @@ def cloud(rng, n, dim=3):
     return [[float(c) for c in p] for p in pts]
 
 
-def reference(points, bf, k, exclude_root):
+def rtol_of(dtype, floor):
+    """relative tolerance for quantities the implementation computes in `dtype`: a few dozen ulps, never below `floor`"""
+    return max(floor, 64 * float(np.finfo(np.dtype(dtype)).eps))
+
+
+def placed_cloud(rng, n, box, offset, scale, dtype):
+    """n points in general position: uniform in a cube of edge `box` centred at `offset`, the whole expressed in a unit `scale`,
+    rounded to `dtype` (the points ARE the rounded values: exact as float64 / JSON); None if two points coincide as float32"""
+    pts = [[(offset[i] + rng.uniform(-box / 2, box / 2)) * scale for i in range(3)] for _ in range(n)]
+    pts = [[float(np.dtype(dtype).type(c)) for c in p] for p in pts]
+    if len({tuple(float(np.float32(c)) for c in p) for p in pts}) < n:
+        return None
+    return pts
+
+
+def random_offset(rng, mag):
+    """a translation of the given magnitude per axis (each axis between 0.3 and 1 of it, either sign)"""
+    return [rng.choice([-1, 1]) * rng.uniform(0.3, 1.0) * mag for _ in range(3)]
+
+
+def reference(points, bf, k, exclude_root, tol=1e-9):
     """the stated greedy rule, re-simulated independently: attach the unconnected point j to the connected,
-    unsaturated point i minimising |ij| + bf * pathlen(i); returns (pids, ambiguous)"""
+    unsaturated point i minimising |ij| + bf * pathlen(i); returns (pids, ambiguous). Ambiguous = best and second-best
+    cost relatively closer than `tol` (scale free: the rule does not depend on the length unit)"""
     n = len(points)
     P = np.array(points, dtype=np.float64)
     d = np.linalg.norm(P[:, None, :] - P[None, :, :], axis=2)
@@ -47,7 +69,7 @@ def reference(points, bf, k, exclude_root):
                     continue
                 best.append((d[i, j] + bf * path[i], i, j))
         best.sort()
-        if len(best) > 1 and best[1][0] - best[0][0] < 1e-9 * max(1.0, best[0][0]):
+        if len(best) > 1 and best[1][0] - best[0][0] <= tol * best[0][0]:
             amb = True
         _, i, j = best[0]
         pid[j] = i; path[j] = path[i] + d[i, j]; kids[i] += 1; conn.append(j)
@@ -123,23 +145,69 @@ class MstSuite(Suite):
             bf = rng.choice([0.0, 0.0, 0.5])
             out.append({"class": f"dense-far/bf{bf}/k-1", "points": pts, "bf": bf, "k": -1, "exclude_soma": True, "soma": False, "sort": rng.random() < 0.5,
                         "api": "mst" if bf == 0 else "cuntz"})
+
+        def options(plain):
+            """no balancing factor and no limit (the MST clause) for `plain`, else any option combination"""
+            bf = 0.0 if plain else rng.choice([0.0, 0.25, 0.5, 1.0, 0.75])
+            k = -1 if plain else rng.choice([-1, -1, 1, 2, 3])
+            return {"bf": bf, "k": k, "exclude_soma": rng.random() < 0.6, "soma": rng.random() < 0.4, "sort": rng.random() < 0.5,
+                    "api": "mst" if bf == 0 and rng.random() < 0.5 else "cuntz"}
+
+        # the array type of the cloud × where the cloud lies: single precision (the type the transform is annotated with) and double precision
+        # clouds, at the origin and translated by 1e2 … 1e5 units (atlas / stage coordinates: the offset is much larger than the point spacing).
+        # The points are the rounded values, so the property speaks about them exactly; every decade × dtype has a case, half of them without
+        # balancing factor and limit
+        for dt in ("float32", "float64"):
+            for di, mag in enumerate((0.0, 1e2, 1e3, 1e4, 1e5)):
+                for plain in ((True, False) if big else (di % 2 == (dt == "float32"),)):
+                    pts = placed_cloud(rng, rng.choice([6, 9, 14, 22]), rng.uniform(10, 100), random_offset(rng, mag * 10 ** rng.uniform(-0.5, 0.5)), 1.0, dt)
+                    if pts is None:
+                        continue
+                    o = options(plain)
+                    out.append({"class": f"placed/{dt}/off{mag:g}/bf{o['bf']}/k{o['k']}", "points": pts, "dtype": dt, **o})
+        # … and with hundreds of points (dense relative to the offset), MST clause; one double precision control
+        for i in range(5 if not big else 16):
+            dt = "float64" if i == 4 else "float32"
+            n = rng.randint(100, 300)
+            pts = placed_cloud(rng, n, rng.uniform(20, 100), random_offset(rng, 10 ** rng.uniform(3, 5)), 1.0, dt)
+            if pts is None:
+                continue
+            out.append({"class": f"placed-large/{dt}", "points": pts, "dtype": dt, **options(True), "large": True})
+        # the same kind of cloud in another length unit: the property is scale free (nm … m for one and the same fragment), so every decade of the
+        # unit from 1e-9 to 1e6 has a case; coordinates stay far inside the float32 range the tree stores
+        for e in range(-9, 6):
+            for plain in (True, False):
+                dt = rng.choice(["float64", "float64", "float32"])
+                pts = placed_cloud(rng, rng.choice([6, 9, 14, 22, 30]), rng.uniform(10, 100), [0.0, 0.0, 0.0], 10 ** (e + rng.random()), dt)
+                if pts is None:
+                    continue
+                o = options(plain)
+                out.append({"class": f"unit/1e{e}/{dt}/bf{o['bf']}/k{o['k']}", "points": pts, "dtype": dt, **o})
+        # … with hundreds of points, MST clause: the unit range in strata, both ends (where an absolute threshold would be too coarse or too
+        # fine) with a stratum of their own
+        for lo, hi in ((-9, -8), (-8, -6), (-6, 0), (0, 4), (4, 6)):
+            for _ in range(1 if not big else 3):
+                pts = placed_cloud(rng, rng.randint(100, 300), rng.uniform(20, 100), [0.0, 0.0, 0.0], 10 ** rng.uniform(lo, hi), "float64")
+                if pts is None:
+                    continue
+                out.append({"class": f"unit-large/1e{lo}..1e{hi}", "points": pts, "dtype": "float64", **options(True), "large": True})
         return out
 
     def run(self, case):
         from swcgeom.transforms import PointsToCuntzMST, PointsToMST
 
-        pts = np.array(case["points"], dtype=np.float64)
+        dt = np.dtype(case.get("dtype", "float64"))       # the points are exactly representable in it
+        pts = np.array(case["points"], dtype=dt)
         soma = None
         if case["soma"]:
-            soma = pts[0]; pts = pts[1:]
+            soma = pts[0]; pts = pts[1:]                   # the soma has the dtype of the cloud
             if len(pts) == 0:
-                soma = None; pts = np.array(case["points"], dtype=np.float64)
+                soma = None; pts = np.array(case["points"], dtype=dt)
         if case["api"] == "mst" and case["bf"] == 0:
             tr = PointsToMST(case["k"], exclude_soma=case["exclude_soma"], sort=case["sort"])
         else:
             tr = PointsToCuntzMST(bf=case["bf"], furcations=case["k"], exclude_soma=case["exclude_soma"], sort=case["sort"])
         t = tr(pts, soma)
-        before = np.array(case["points"], dtype=np.float64)
         return {"pid": t.pid().tolist(), "id": t.id().tolist(), "xyz": t.xyz().astype(float).tolist(), "type": t.type().tolist(),
                 "length": float(t.length())}
 
@@ -160,10 +228,11 @@ class MstSuite(Suite):
         if case.get("large"):
             return []      # the oracle's clauses only: the quadratic reference and the rational model are for the smaller clouds
         pid, _ = self._orig_pids(case, res)
-        ref, amb = reference(case["points"], case["bf"], case["k"], case["exclude_soma"])
+        dt = case.get("dtype", "float64")
+        ref, amb = reference(case["points"], case["bf"], case["k"], case["exclude_soma"], rtol_of(dt, 1e-9))
         if pid is None or amb:
             return []
-        P = np.array(case["points"], dtype=np.float64)
+        P = np.array(case["points"], dtype=dt)             # the matrix in the precision of the cloud handed over
         d = np.linalg.norm(P.reshape((-1, 1, 3)) - P.reshape((1, -1, 3)), axis=2)
         rows = ";".join(",".join(str(Fraction(float(v))) for v in row) for row in d)
         return [(f"mst bf={Fraction(case['bf'])} k={case['k']} ex={int(case['exclude_soma'])} d={rows}", gen.ints(pid))]
@@ -197,7 +266,8 @@ class MstSuite(Suite):
             bad = [i for i in range(n) if cnt[i] > case["k"] and not (case["exclude_soma"] and i == 0)]
             if bad:
                 out.append(("mst-branching-limit", f"points {bad} have {[cnt[i] for i in bad]} children, limit {case['k']}"))
-        ref, amb = (None, True) if case.get("large") else reference(pts, case["bf"], case["k"], case["exclude_soma"])
+        dt = case.get("dtype", "float64")
+        ref, amb = (None, True) if case.get("large") else reference(pts, case["bf"], case["k"], case["exclude_soma"], rtol_of(dt, 1e-9))
         if not amb and pid != ref:
             diff = [i for i in range(n) if pid[i] != ref[i]]
             key = "mst-greedy-rule" + ("/balancing" if case["bf"] > 0 else "")
@@ -207,8 +277,9 @@ class MstSuite(Suite):
             # the tree stores float32 coordinates: measure the returned edges on the exact input points
             P = np.array(pts, dtype=np.float64)
             length = sum(float(np.linalg.norm(P[i] - P[p])) for i, p in enumerate(pid) if p >= 0)
-            if abs(length - w) > 1e-7 * max(1.0, w):
-                out.append(("mst-weight", f"total length {length}, minimum spanning tree weight {w}"))
+            # relative at every length scale; near-ties inside the rounding of the cloud's dtype may be resolved either way
+            if abs(length - w) > rtol_of(dt, 1e-7) * w:
+                out.append(("mst-weight", f"total length {length}, minimum spanning tree weight {w} ({100 * (length / w - 1):+.3g} %, {dt} cloud of {n} points)"))
         return out[:3]
 
     def nontrivial(self, case, res):
